@@ -227,6 +227,7 @@ impl Store {
     pub(super) fn dependent_loads(&self, operation: Operation) -> &[Option<Access>] {
         match &self.entries[operation.obj.index] {
             Entry::Atomic(entry) => entry.dependent_loads(operation.action.into()),
+            Entry::Arc(entry) => entry.additional_dependent_accesses(operation.action.into()),
             _ => &[],
         }
     }
@@ -239,7 +240,9 @@ impl Store {
         dpor_vv: &VersionVec,
     ) {
         match &mut self.entries[operation.obj.index] {
-            Entry::Arc(entry) => entry.set_last_access(operation.action.into(), path_id, dpor_vv),
+            Entry::Arc(entry) => {
+                entry.set_last_access(operation.action.into(), thread, path_id, dpor_vv)
+            }
             Entry::Atomic(entry) => {
                 entry.set_last_access(operation.action.into(), thread, path_id, dpor_vv)
             }
